@@ -30,7 +30,7 @@ ERRORS = [(b'bogus = 1', 0), (b'i = x', 0), (b'i = = 2', 0), (b'i 5', 0), (b'i =
           (b's = "x\ny\\8"', 1), (b'i = 99999999999999999999', 0), (b'kv { k = = }', 0), (b'b = maybe', 0), (b'f = 1.5x', 0),
           (b'i += 1', 0), (b'sec = 1', 0), (b'fn 1', 0), (b'sec {\n in {\n z = q\n}\n}', 2), (b't "x" {\n a = \n= }', 2),
           (b'il = {1 2}', 0), (b', ', 0), (b'i = {', 0), (b'"" = 1', 0), (b'"|foo" = 1', 0), (b'"sec|" = 1', 0), (b'"|" = 1', 0),
-          (b'"sec=|a" = 1', 0), (b'"t=\'x\'y|a" = 1', 0), (b'"sec|in" = 1', 0)]
+          (b'"sec=|a" = 1', 0), (b'"kv|x" = 1', 0), (b'kv|x = 1', 0), (b'"t=\'x\'y|a" = 1', 0), (b'"sec|in" = 1', 0)]
 # errors that are only detected at the end of the input: the line is that of the last byte
 EOF_ERRORS = [b'sec { a = 1', b'i =', b"s = 'unterminated\n\n", b's = "unterminated\n', b'/* unterminated\n\n', b'il = {1,', b'fn(a',
               b't "x"', b'i']
